@@ -243,7 +243,7 @@ func tomlable(v interface{}) interface{} {
 	return v
 }
 
-var lineText = map[string]string{"kv": "K1=v1", "kempty": "K2=", "emptykey": "=v3", "nokv": "JUSTAKEY", "blank": "", "kvv": "K4=a=b", "comment": "# a comment", "spaces": "   ", "crlf": "K5=v5\r", "dq": "K6=\"", "sq": "K7='", "quoted": "K8=\"v8\""}
+var lineText = map[string]string{"kv": "K1=v1", "kempty": "K2=", "emptykey": "=v3", "blankkey": " \t=v9", "nokv": "JUSTAKEY", "blank": "", "kvv": "K4=a=b", "comment": "# a comment", "spaces": "   ", "crlf": "K5=v5\r", "dq": "K6=\"", "sq": "K7='", "quoted": "K8=\"v8\""}
 
 // CheckC15 is the engine behind C15.
 func CheckC15(env *core.Env, rep *core.Report) *core.Result {
@@ -259,8 +259,8 @@ func CheckC15(env *core.Env, rep *core.Report) *core.Result {
 		cases = append(cases, c)
 	}
 	e.note("Shapes", r, fmt.Sprintf("%d cases: (position, shape) over the configuration schema and env_file line sequences; Total holds", len(cases)))
-	if len(cases) != 2696 {
-		core.Broken("Shapes emitted %d cases, expected 2696", len(cases))
+	if len(cases) != 3191 {
+		core.Broken("Shapes emitted %d cases, expected 3191", len(cases))
 	}
 	sort.Slice(cases, func(i, j int) bool { return core.JSON(cases[i]) < core.JSON(cases[j]) })
 	var runs, skipped int64
@@ -468,6 +468,18 @@ func CheckC15(env *core.Env, rep *core.Report) *core.Result {
 		var variants [][]byte
 		for k := 1; k < 16; k++ {
 			variants = append(variants, data[:len(data)*k/16]) // truncation
+		}
+		if format == "yaml" {
+			// a YAML document cut at (nearly) every position of a compact configuration: inside keys, inside
+			// values, after a colon, in the middle of a list
+			small := []byte("tasks:\n  entry:\n    command:\n      - echo one\n      - echo two\n    env:\n      A: b\npipelines:\n  entry:\n    - task: entry\n      name: first\nwatchers:\n  w:\n    task: entry\n    watch: [\"*.go\"]\n")
+			step := 1
+			if !thorough {
+				step = 3
+			}
+			for k := 1; k < len(small); k += step {
+				variants = append(variants, small[:k])
+			}
 		}
 		for _, at := range []int{0, len(data) / 3, len(data) - 1} {
 			v := append(append(append([]byte{}, data[:at]...), 0xff, 0xfe, 0xc3), data[at:]...)
